@@ -5,7 +5,7 @@ export GOFLAGS=-mod=mod GOPROXY=off GOSUMDB=off GOTOOLCHAIN=local
 cmd=$1; shift
 case $cmd in
 collect)
-  id=$1; name=${2:-$id-a}; wt=/tmp/seed/$id; out=/verif/seeded/$name
+  id=$1; name=${2:-$id-a}; wt=${SEEDROOT:-/tmp/seed}/$id; out=/verif/seeded/$name
   mkdir -p $out
   cd $wt || exit 2
   demo=$(git status --porcelain | grep seeded_demo_test.go | awk '{print $2}' | head -1)
